@@ -334,7 +334,9 @@ func (r *udpBatchReader) finishRecv(i int, now time.Time) {
 		return
 	}
 	saLen := h.hdr.Namelen
-	if saLen > uint32(len(j.rawSA)) || !j.setRemoteRaw(r.names[i][:saLen]) {
+	if saLen > uint32(len(j.rawSA)) || !j.setRemoteRaw(r.names[i][:saLen]) || j.raddr.Port() == 0 {
+		// (source port 0: reserved, unanswerable, and with 127.0.0.255 the
+		// address sentinel of a resolver-internal sub-query — see reader)
 		j.release(udpJobReading)
 		udpDropError.Inc()
 		return
